@@ -602,7 +602,7 @@ class Unit:
 
     def fn(self, path, block, name, spec=None, ret=None, loops=None, proofs=None, rules=(), key=None,
            props=None, rename=None, header_rules=(), expect=True, strip_pub=False, as_free=False,
-           block_index=0, prefix="", no_canary=False, vpath=None):
+           block_index=0, prefix="", no_canary=False, vpath=None, params=None):
         """Extract fn `name` from `block` (impl/trait header text, or None for file level) of `path`."""
         src = self.src(path)
         blk = None
@@ -640,6 +640,25 @@ class Unit:
                     apps += ctx.apps
                 except (LostAnchor, Unsupported):
                     pass
+        if params:
+            # R-param: the contract names the parameters; a function whose parameters were RENAMED in /repo is brought back to the
+            # contract's names (positional, whole-word substitution in header and body) - a rename is not a reason to lose the proof
+            h0, b0 = fn_split(text)
+            ct0 = rl.code_toks(rl.lex(h0))
+            k0 = next((i for i, t in enumerate(ct0) if t.text == "("), None)
+            if k0 is not None:
+                c0 = rl.match_close(ct0, k0)
+                plist = [x.strip() for x in split_top(h0[ct0[k0].end:ct0[c0].start]) if x.strip()]
+                names = []
+                for x in plist:
+                    m = re.match(r"(?:mut\s+)?([a-z_][a-z0-9_]*)\s*:", x)
+                    if m:
+                        names.append(m.group(1))
+                ren = [(a, b) for a, b in zip(names, params) if a != b and b]
+                if ren and len(names) == len(params) and not any(re.search(r"\b%s\b" % re.escape(b), text) for _, b in ren):
+                    for a, b in ren:
+                        text = re.sub(r"\b%s\b" % re.escape(a), b, text)
+                    apps.append({"rule": "R-param", "before": ", ".join(a for a, _ in ren), "after": ", ".join(b for _, b in ren)})
         header, body = fn_split(text)
         if not stub_reason and body is not None:
             # an exec closure left in the body after the rewrite rules has no contract: Verus sees nothing of what it computes, so
